@@ -52,6 +52,55 @@ CHECKS = {
         "design_ref": "DESIGN.md section 5, C05",
         "note": TRUSTED + " The first failing stage is not demanded, only that the class names a present defect.",
     },
+    "C02": {
+        "technique": "TLA+ spec (Mod97) + TLC: complete residue model MC_Mod97 (97 residues x 100 digit pairs) and trace "
+                     "validation of from_bban / all-100-pairs drivers over every country",
+        "text": "Specification level is complete: for every residue of 'BBAN cc' and every pair dd, exactly the "
+                "prescribed 98-(r*100 mod 97) is accepted, it lies in 02..98, the aliases 00/01/99 never pass, and "
+                "folding on residues is sound (linearity). Implementation level: for all countries x k conforming "
+                "BBANs (all-low, all-high, letters, BBANs whose digits are 02/03/97/98, random) IBAN.from_bban must "
+                "give the spec's FromBban and be Valid, and of the 100 texts cc dd bban exactly the spec-valid one is "
+                "accepted (9e4 / 1.2e6 validated calls).",
+        "design_ref": "DESIGN.md section 5, C02",
+        "note": TRUSTED + " BBANs are sampled per country (the residue abstraction makes the arithmetic complete, the "
+                          "binding of the code to it is by these samples).",
+    },
+    "C03": {
+        "technique": "TLA+ spec + TLC: complete error model MC_Mod97Errors (every decimal place 0..69 x every same-kind "
+                     "substitution / adjacent transposition incl. wrap-around) and trace validation of single-error "
+                     "drivers over every country",
+        "text": "TLC checks all 106,760 single-error shapes an IBAN numeric string of <= 70 places can suffer: the "
+                "induced delta is never 0 mod 97. The code is bound to that arithmetic by trace validation: all "
+                "countries x n valid IBANs x every position >= 2 x every same-kind replacement and every adjacent "
+                "same-kind transposition (8e4 / 6e5 texts) must be rejected, judged by Valid of the spec; a "
+                "single-error text accepted by code and spec alike is reported as contradiction of the theorem.",
+        "design_ref": "DESIGN.md section 5, C03",
+        "note": TRUSTED + " Valid IBANs are sampled per country.",
+    },
+    "C10": {
+        "technique": "TLA+ spec (Text.Clean, Groups4, BicFormatted) + TLC: bounded edit model MC_CleanEdits on the real "
+                     "table, every model state replayed into the library (tlc -dump), trace validation of random "
+                     "white-space / case variants",
+        "text": "TLC explores <= 2 insertions of white space (4-6 kinds, every position) / lower-casings from 10 seed "
+                "texts (valid and each defect kind, IBAN and BIC): same clean form, same verdict and defect set, Clean "
+                "idempotent, formatted = groups of four / BIC parts and cleans back. All ~7e4 states are replayed: "
+                "both texts constructed (validated and not), outcomes, ==, hash, compact and formatted compared by "
+                "TLC; plus random variants with all 29 white-space code points (4e3 / 1.6e5 pairs).",
+        "design_ref": "DESIGN.md section 5, C10",
+        "note": TRUSTED + " Case = ASCII letters only, as the property says.",
+    },
+    "C11": {
+        "technique": "TLA+ spec (Iban.Component/Slice, Bic parts, Load-composed table) + TLC: per-country table model "
+                     "MC_Positions and trace validation of full decompositions",
+        "text": "MC_Positions: one state per country of the frozen table, ranges inside the BBAN and disjoint. "
+                "Trace validation: every country x n accepted IBANs - all eight components via IBAN and via BBAN "
+                "accessors, country, check digits, bban, length, formatted, from_bban rebuild (object and str) - and "
+                "registry + random BICs (four parts, formatted, type) are each compared by TLC with the slices the "
+                "spec computes from the spec-merged table.",
+        "design_ref": "DESIGN.md section 5, C11",
+        "note": TRUSTED + " 'Published position' means the bundled table; positions edited in the data are C17/C06 "
+                          "matters.",
+    },
 }
 
 NOT_YET = {
